@@ -137,11 +137,25 @@ Definition transform_parse_time (local_off : Z) (value : bytes) : tp_result :=
   end.
 
 (* ---- correspondence entry point ----
-   kind 0: sargs = [value]; output "skip" | "ok:<unix>,<nsec>" | "err" | "panic" *)
-Definition run_case_C13 (c : case) : bytes :=
-  match transform_parse_time 0 (sarg c 0) with
+   per-record output "skip" | "ok:<unix>,<nsec>" | "err" | "panic" *)
+Definition show_tp (r : tp_result) : bytes :=
+  match r with
   | TpSkip => [115;107;105;112]%N
   | TpSet u n => str_ok ++ colon :: dec_of_Z u ++ comma :: dec_of_Z n
   | TpError => str_err
   | TpPanic _ => str_panic
+  end.
+
+(* The transform over a stream of records through one instance: (result per record, error counter).
+   The time-zone cache of the implementation is not state of the model: the result of a record
+   does not depend on the records before it. *)
+Definition transform_stream (local_off : Z) (vs : list bytes) : list tp_result * Z :=
+  let rs := map (transform_parse_time local_off) vs in
+  (rs, Z.of_nat (length (filter (fun r => match r with TpError => true | _ => false end) rs))).
+
+(* kind 0: one value; kind 1: a sequence through one instance, "seq:" ++ results joined by ';' *)
+Definition run_case_C13 (c : case) : bytes :=
+  match c_kind c with
+  | 1%N => [115;101;113;58]%N ++ join 59%N (map show_tp (fst (transform_stream 0 (c_sargs c))))
+  | _ => show_tp (transform_parse_time 0 (sarg c 0))
   end.
